@@ -10,9 +10,9 @@ A15Plan plan;
 bool done;
 enum { F_CUT = 0, F_CAPACITY };
 const char *fault_names[] = {"channel_cut", "capacity_exhausted", nullptr};
-enum { P_CUT_MID_VALUE = 0, P_CUT_AT_BOUNDARY, P_ALL_READ, P_EXACT_FIT, P_ONE_OVER, P_REJECTED, P_EMPTY_CONTAINER, P_NESTED_VECTOR, P_READER_ATTACHED, P_LARGE_VALUE, P_HUGE_STRING };
+enum { P_CUT_MID_VALUE = 0, P_CUT_AT_BOUNDARY, P_ALL_READ, P_EXACT_FIT, P_ONE_OVER, P_REJECTED, P_EMPTY_CONTAINER, P_NESTED_VECTOR, P_READER_ATTACHED, P_LARGE_VALUE, P_HUGE_STRING, P_FLUSHED };
 const char *probe_names[] = {"cut_made_a_read_throw", "cut_at_value_boundary", "all_values_read_back", "fixed_writer_exact_fit", "fixed_writer_one_byte_over",
-                             "fixed_writer_rejected_a_write", "empty_string_or_vector", "nested_vector", "reader_attached_while_writing_finished", "string_or_vector_of_255_to_2^20_elements", "string_of_16MiB_or_more", nullptr};
+                             "fixed_writer_rejected_a_write", "empty_string_or_vector", "nested_vector", "reader_attached_while_writing_finished", "string_or_vector_of_255_to_2^20_elements", "string_of_16MiB_or_more", "flush_called_on_the_writers", nullptr};
 const char *tn[] = {"u8", "i16", "i32", "u64", "float", "double", "pod-struct", "string", "c-string", "vector<int>", "vector<string>", "vector<vector<int>>",
                     "ArrayView", "OwnedArray", "FixedArray", "FixedArrayView", "vector<uint8_t>", "vector<int16_t>", "vector<struct of 3 bytes with member initialisers>",
                     "vector<pair<uint16_t,uint16_t>>", "vector<1-byte struct with a constructor>", "vector<double>", "vector<pod-struct>"};
@@ -56,6 +56,9 @@ void do_plan(int tier)
         sim_probe(P_NESTED_VECTOR);
     }
     plan.cut_choice = (int)sim_plan(1 << 16);
+    plan.flush_mask = sim_plan(3) == 0 ? sim_plan(1 << 16) : 0;  // WriteStream::flush() is part of the interface: 'a message is complete'
+    if (plan.flush_mask)
+      sim_probe(P_FLUSHED);
     plan.reader_at = plan.mode == 3 ? (int)sim_plan((uint32_t)plan.nvals + 1) : 0;
     if (plan.mode == 3 && plan.nvals == 0)
       plan.mode = 0;
